@@ -789,6 +789,8 @@ class Interp:
         if isinstance(value, (str, list, dict, tuple, set, frozenset)):
             if not hasattr(value, name):
                 self.raise_("builtins.AttributeError", "%r object has no attribute %r" % (type(value).__name__, name))
+            if isinstance(value, tuple) and name in getattr(type(value), "_fields", ()):
+                return getattr(value, name)  # a field of a named tuple
             return NativeMethod(value, name)
         if isinstance(value, (int, float)) and not isinstance(value, bool) and name in _NATIVE_METHODS.get(type(value).__name__, ()):
             return NativeMethod(value, name)
